@@ -10,6 +10,7 @@ import random
 import re
 import sys
 import threading
+import time
 from datetime import datetime, timezone
 
 from common import Verdict, tier as get_tier, seed as get_seed, RUN
@@ -130,12 +131,17 @@ def asl_rule(r, top=True):
     return d
 
 
-def spec_rule(r):
-    comb = r["op"] in ("And", "Or", "Not")
-    return {"op": r["op"], "kids": [spec_rule(k) for k in r.get("kids", [])],
-            "var": [] if comb else steps(r["var"]), "path": bool(r.get("path")),
-            "lit": aenc(None if comb or r.get("path") else r["lit"]),
-            "ref": steps(r["ref"]) if r.get("path") else [], "next": r.get("next", "")}
+def spec_rule(r, top=True):
+    """the node records of Choice.tla (only the fields the node's kind uses)"""
+    if r["op"] in ("And", "Or", "Not"):
+        d = {"op": r["op"], "kids": [spec_rule(k, False) for k in r["kids"]]}
+    elif r["path"]:
+        d = {"op": r["op"], "var": steps(r["var"]), "path": True, "ref": steps(r["ref"])}
+    else:
+        d = {"op": r["op"], "var": steps(r["var"]), "path": False, "lit": aenc(r["lit"])}
+    if top:
+        d["next"] = r["next"]
+    return d
 
 
 MARKERS = ("M1", "M2", "M3", "M4", "D")
@@ -205,14 +211,30 @@ def run_batch(asl, cases):
         c.out = outcome_of(r.outcomes.get(W.exec_arn("sm", "e%d" % (k + 1))), r.error)
 
 
-def run_all(cases, chunk=64):
+def _run_task(task):
+    rules, hasdef, inpath, raws = task
+    cs = [Case("", rules, raw, hasdef, inpath) for raw in raws]
+    run_batch(machine(rules, hasdef, inpath), cs)
+    return [c.out for c in cs]
+
+
+def run_all(cases, pool=None, chunk=64):
+    """Run every case on the real engine: cases sharing a machine are started as several executions of one
+    world (64 at a time); with a pool the batches are spread over forked worker processes (each case is an
+    independent execution, so the result does not depend on the distribution)."""
     groups = collections.OrderedDict()
     for c in cases:
         groups.setdefault(c.mkey(), []).append(c)
+    tasks, owners = [], []
     for cs in groups.values():
-        asl = machine(cs[0].rules, cs[0].hasdef, cs[0].inpath)
         for i in range(0, len(cs), chunk):
-            run_batch(asl, cs[i:i + chunk])
+            part = cs[i:i + chunk]
+            tasks.append((part[0].rules, part[0].hasdef, part[0].inpath, [c.raw for c in part]))
+            owners.append(part)
+    results = pool.imap(_run_task, tasks, chunksize=8) if pool else map(_run_task, tasks)
+    for part, outs in zip(owners, results):
+        for c, o in zip(part, outs):
+            c.out = o
     return len(groups)
 
 
@@ -299,7 +321,7 @@ def tree_inputs(full):
     if full:
         return [doc(a=a, b=b, c=c) for a in A_VALS for b in B_VALS for c in C_VALS]
     ins = [doc(a=a, b=b, c=c) for a in A_VALS[:2] for b in B_VALS[:2] for c in C_VALS[:2]]
-    ins += [doc(a=MISSING, b=1, c="ab"), doc(a=False, b="x", c=5), doc(a=MISSING, b=0, c="b"), doc(a=True, b="x", c=5)]
+    ins += [doc(a=MISSING, b=1, c="ab"), doc(a=False, b="x", c=5), doc(a=MISSING, b=0, c="b")]
     return ins
 
 
@@ -358,7 +380,7 @@ def pattern_cases(thorough):
     out = []
     subj1 = [""] + SUBJ_CHARS
     subj_all = subj1 + SUBJ_LONG
-    subj3 = subj1 + ["aa", "a*", "\\*", "\\\\", "[a]", "a?a", "aba", "a\\*", "*\\", "\\a\\"]
+    subj3 = ["", "a", "*", "\\", "aa", "a*", "\\*", "\\\\", "[a]", "aba", "a\\*", "*\\"]
     for n in (0, 1, 2, 3):
         for toks in itertools.product(TOKENS, repeat=n):
             pat = "".join(toks)
@@ -431,9 +453,9 @@ def build_cases(thorough, rng):
 
 
 # ---------------------------------------------------------------------------------------------
-def judge_cases(cases, workdir):
+def judge_cases(cases, workdir, parts=16):
     obs = [c.obs() for c in cases]
-    return judge.run_judge("JudgeC14", obs, workdir)
+    return judge.run_judge("JudgeC14", obs, workdir, parts=parts)
 
 
 def describe(c):
@@ -478,13 +500,20 @@ def run(tier_name=None, replay=None):
             laws["res"] = judge.run_laws("Choice", workers=4)
         except Exception as ex:        # reported below as a machinery failure
             laws["exc"] = ex
+    import multiprocessing
+    pool = multiprocessing.get_context("fork").Pool(min(12 if thorough else 6, os.cpu_count() or 1))      # forked before any thread exists
     th = threading.Thread(target=do_laws)
     th.start()
 
     cases = build_cases(thorough, rng)
-    nmachines = run_all(cases)
+    t_engine = time.time()
     try:
-        fails, stats = judge_cases(cases, os.path.join(RUN, "C14-" + t))
+        nmachines = run_all(cases, pool)
+    finally:
+        pool.terminate()
+    t_engine = round(time.time() - t_engine, 2)
+    try:
+        fails, stats = judge_cases(cases, os.path.join(RUN, "C14-" + t), parts=16 if thorough else 10)
     except Exception as ex:
         th.join()
         v.machinery_failure(str(ex)[:1500])
@@ -526,7 +555,7 @@ def run(tier_name=None, replay=None):
                 % (distinct, "; thorough adds more values (non-ASCII, big numbers, odd timestamps), all ordered depth-2 trees, all inputs, and random trees, rule lists and patterns" if thorough else ""),
         "samples": [describe(c) for c in picks],
         "families": dict(fam), "machines": nmachines, "outcomes": dict(outs.most_common(12)),
-        "failed_clauses": dict(cl), "exhaustive": True, "tlc_cpu_s": stats["tlc_cpu_s"], "tlc_wall_s": stats["tlc_wall_s"],
+        "failed_clauses": dict(cl), "exhaustive": True, "tlc_cpu_s": stats["tlc_cpu_s"], "tlc_wall_s": stats["tlc_wall_s"], "engine_wall_s": t_engine,
         "laws_model_checked": "MC_Choice: De Morgan, double negation, identity elements, commutativity/associativity, excluded middle, "
                               "literal = Path form, type discipline, total orders per family, timestamps by instant, type facts, first match "
                               "(independent characterisation, order only through first match, removal of non-matching rules, Default), "
